@@ -23,7 +23,14 @@ REGISTRATION = {
             "under the guard that no shift fails, with a Lean-checked counterexample otherwise. The model is "
             "compared event by event with the REAL NewSequence/LoadCacheSlot/processBatch/Causal (fake eager "
             "backend, scripted model whose logits are a function of exactly the exposed key rows), and every "
-            "clause is also evaluated directly on the real cache (L2). Records of different slots never share "
+            "clause is also evaluated directly on the real cache (L2). The invariant is also proved for the EXECUTABLE "
+            "model itself (Properties/C07Batch.lean): innerLoop / phase1 / the single store of a mixed batch / phase3 / "
+            "processBatch / the admission block / runEvents keep SInv = Coherent + exclusive ownership of slots by live "
+            "sequences + records <= numCtx, so every state reachable from a new runner by any event list is coherent and "
+            "no two live sequences share a slot (reachable_coherent_owned, Tie.C07.tree_reachable_coherent_owned; plain "
+            "causal cache, defrag layouts assumed to be relocations); NewSequence truncation (newSequence_spec), "
+            "shift-frees-room (shift_ok_shape) and the record cut next to TruncateStop (stop_cut_record; L2 stop-cut) are "
+            "theorems. Records of different slots never share "
             "storage (load/forward/shift leave every other slot unchanged: theorems; record-aliasing monitors on "
             "the real slots of both runners).",
     "design_ref": "DESIGN.md §5 C07, §6 F3/F22",
@@ -124,6 +131,9 @@ REQUIRED_COUNTERS = [
     "br_done_stop_string",        # phase3Seq stop branch
     "stop_cut_removed_tokens",    # ... with a real cut of the record (stop_cut_record)
     "swa_evicted",                # sliding-window eviction (canResume_sound / load_window_present context)
+    # the legs themselves ran and did what they are for (an empty ops.txt / l2.txt must not pass)
+    "cases", "corpus_cases", "cfg_swa", "cfg_multiuser", "cfg_noshiftfn", "req_fresh_equiv_checked", "stop_cut_checked",
+    "hh_cases", "hh_cancel", "hh_open_right_after_cancel", "ll_cases", "llh_cases", "llh_fork", "llh_shift_reprocess",
 ]
 
 
@@ -152,6 +162,13 @@ def reset_end(ctx):
     return val
 
 
+# sha1 of llamarunner's LoadCacheSlot + ShiftCacheSlot as the driver replays them statement by statement
+# (harness/overlay/runner_llamarunner/zz_verif_c07_test.go). A different value means the replay no longer
+# mirrors the tree: the check fails closed until the driver's replay is brought up to date and this constant
+# is changed with it.
+LL_REPLAYED_SHA1 = "3cda1ad343206c204bbf71f37e0f92b4e19379b4"
+
+
 def ll_replayed_sha():
     """sha1 of the llamarunner functions whose statements the driver replays (they call llama.cpp
     unconditionally and cannot run without a model): recorded in the evidence so that drift is visible."""
@@ -164,12 +181,15 @@ def ll_replayed_sha():
     return hashlib.sha1("".join(parts).encode()).hexdigest()
 
 
-def driver_died(ctx, outdir, out):
+def driver_died(ctx, outdir, out, rc=1):
     """The whole `go test` process died (a fatal error of the real code that recover cannot catch, e.g. a
     deadlock): attribute it to the history the driver announced last, which is then a concrete input."""
     cur = os.path.join(outdir, "current.txt")
     case = open(cur).read().strip() if os.path.exists(cur) else ""
-    if case:
+    if rc == 124 or "panic: test timed out" in out:
+        # the leg ran out of time (loaded machine): the history announced last is innocent
+        ctx.violation("driver-timeout", "", "go test did not finish within its timeout: " + out[-600:], no_input=True)
+    elif case:
         ctx.violation("driver-died", case, "the test process died while this history was running: " + out[-1200:])
     else:
         ctx.violation("driver-failed", "", out[-1500:], no_input=True)
@@ -193,7 +213,7 @@ def run(ctx):
             env["VERIF_REPLAY"] = replay_file
         rc, out, outdir = ctx.go_test("./runner/ollamarunner/", OVERLAY, "^TestVerifC07Handler$", env=env, timeout=1500)
         if rc != 0:
-            driver_died(ctx, outdir, out)
+            driver_died(ctx, outdir, out, rc)
         ctx.read_stats(outdir)
         ctx.classify(ctx.l2(outdir))
     if not replay_ll and not replay_hh:
@@ -202,7 +222,7 @@ def run(ctx):
             env["VERIF_REPLAY"] = replay_file
         rc, out, outdir = ctx.go_test("./runner/ollamarunner/", OVERLAY, "^TestVerifC07$", env=env, timeout=1500)
         if rc != 0:
-            driver_died(ctx, outdir, out)
+            driver_died(ctx, outdir, out, rc)
         ctx.read_stats(outdir)
         ctx.l1(outdir)
         ctx.classify(ctx.l2(outdir))
@@ -230,7 +250,19 @@ def run(ctx):
         if missing:
             ctx.violation("correspondence-coverage", "", "branches the theorems speak about were never exercised by "
                           "the history driver on the real code: " + ", ".join(missing), no_input=True)
-    ctx.coverage["llamarunner_replayed_source_sha1"] = ll_replayed_sha()
+    sha = ll_replayed_sha()
+    ctx.coverage["llamarunner_replayed_source_sha1"] = sha
+    ctx.coverage["llamarunner_replayed_source_sha1_expected"] = LL_REPLAYED_SHA1
+    if sha != LL_REPLAYED_SHA1:
+        ctx.violation("llamarunner-replayed-source-drift", "",
+                      "runner/llamarunner/cache.go LoadCacheSlot/ShiftCacheSlot changed (sha1 %s, the driver replays the "
+                      "statements of %s): the llamarunner history leg no longer exercises the tree's code" % (sha, LL_REPLAYED_SHA1),
+                      no_input=True)
+    # F22: a nil dereference of the real findBestCacheSlot (every slot busy / no slot older than now) is an outcome
+    # the model mirrors (Fail.nilDeref); such cases PASS by panicking on both sides. Panics are outside C07, the
+    # count is stated here so that the evidence does not hide them.
+    ctx.coverage["cases_passed_by_modelled_panic_F22"] = {
+        k: ctx.stats.get(k, 0) for k in ("busy_panic", "ll_panic", "llh_load_panic")}
     ctx.assumptions += [
         "cell placement after a defrag is taken from the real kvcache.Causal (C06 owns placement and the data "
         "movement of defrag); the theorems hold for every placement",
@@ -238,6 +270,15 @@ def run(ctx):
         "Coherent invariant theorems are for plain causal caches (any CanResume answer); for SWA the proved part is "
         "canResume_sound + load_window_present (leave-one/CanResume ordering)",
         "text inputs only (SameBatch = 0, no multimodal hashes); greedy sampling",
+        "SInv / reachable_coherent_owned: plain causal cache (window = none), numCtx < 2^31, and every layout adopted after "
+        "a defrag is a relocation of the cells (HintsOK; C06 proves that about defrag); the theorems say nothing when "
+        "processBatch returns an error (ErrKvCacheFull: run() panics)",
+        "load_window_present / canResume_sound assume PosUnique (a sequence holds each position at most once) for SWA "
+        "caches: not proved as an invariant there",
+        "stop_cut_record assumes the record ends with the tokens of the held-back pieces (true unless a context shift "
+        "discarded them; then Go's slice expression may panic: outside C07)",
+        "fresh-runner equivalence is a theorem per Forward (fresh_equiv_tokens) on any coherent cache; chained over a "
+        "whole generation only by the L2 monitor fresh-equiv",
         "llamarunner: slot selection/fork/ShiftDiscard real over histories; LoadCacheSlot/ShiftCacheSlot statements "
         "replayed by the driver; llama.cpp's KV cache is a shadow (modelled, not verified)",
     ]
